@@ -268,7 +268,7 @@ class EqSystem(ReactionSystem):
 
     def _result_is_sane(self, init_concs, x, rtol=1e-9):
         sc_upper_bounds = np.array(self.upper_conc_bounds(init_concs))
-        if np.any(np.isnan(x)):  # nan compares False with everything
+        if not np.all(np.isfinite(x)):  # nan compares False with everything, inf <= inf
             warnings.warn("Concentration is not a number")
             return False
         neg_conc, too_much = np.any(x < 0), np.any(x > sc_upper_bounds * (1 + rtol))
